@@ -446,6 +446,17 @@ impl Gen {
                 }
                 self.slots[b].limit = None;
                 self.emit(format!("roundtrip {a} {b}"));
+                // a deserialised interner must keep working: continue the history on it
+                let kind = self.slots[b].kind;
+                if (kind == "rodeo" || kind == "threaded") && self.rng.chance(3, 4) {
+                    for _ in 0..self.rng.range(1, 3) {
+                        let x = if self.rng.chance(2, 3) { self.fresh_str() } else { self.some_string(b) };
+                        self.emit(format!("intern {b} {}", hex(&x)));
+                        self.note_intern(b, x);
+                    }
+                    let k = self.some_key(b);
+                    self.emit(format!("tryResolve {b} {k}"));
+                }
             }
             "de" => {
                 if any.len() >= 6 {
@@ -525,6 +536,26 @@ impl Gen {
                     self.slots[b] = gs;
                 }
                 self.emit(format!("de {kind} {b} {doc}"));
+                // every safe call on the result must be well-defined: use it right away
+                let r = self.rng.below(100);
+                if kind == "threaded" || kind == "rodeo" {
+                    if r < 35 {
+                        let op = if self.rng.chance(1, 2) { "intoResolver" } else { "intoReader" };
+                        self.slots[b].kind = if op == "intoReader" { "reader" } else { "resolver" };
+                        self.emit(format!("{op} {b}"));
+                        self.emit(format!("iter {b}"));
+                    } else if r < 70 {
+                        let x = if self.rng.chance(1, 2) { self.fresh_str() } else { self.some_string(b) };
+                        self.emit(format!("intern {b} {}", hex(&x)));
+                        self.note_intern(b, x);
+                        let y = self.some_string(b);
+                        self.emit(format!("get {b} {}", hex(&y)));
+                    }
+                } else if r < 50 {
+                    self.emit(format!("iter {b}"));
+                    let k = self.some_key(b);
+                    self.emit(format!("tryResolve {b} {k}"));
+                }
             }
             "extend" => {
                 let Some(&si) = interners.get(self.rng.below(interners.len().max(1) as u64) as usize) else { return };
